@@ -2,6 +2,8 @@ import PV.Model.Sexp
 import PV.Model.CCode
 import PV.Model.CCodeFrag
 import PV.Generated.Prec
+import PV.Model.CCodeTable
+import PV.Generated.CCode
 /- Driver operations for the C code mapper model (C14). -/
 namespace PV.Driver
 open PV
@@ -87,6 +89,25 @@ def handleCCode : Sexp → Option Sexp
           .list [.atom "opaque", Sexp.ofBool (c14Opaque d)]])
       | .error err => some (ccodeErrToSexp err)
     | _, _ => some (.list [.atom "bad-op", Sexp.str "ccode-denc"])
+  | .list [.atom "ccode-hist2", .atom rev, .atom pfx, .list ops] =>
+    -- the same history through the hand-written model AND through the table interpreter run on
+    -- the table regenerated from the source (T-gen tie, checked from the compiled side)
+    match ops.mapM copnOfSexp? with
+    | none => some (.list [.atom "bad-op", Sexp.str "ccode-hist2"])
+    | some ops =>
+      let pf := (Sexp.atom pfx).text.getD "_cse"
+      let st0 : CSt := { reverse := rev == "true", pfx := pf }
+      let show_ (r : Except CErr (List CStepOut × List CSt)) : Sexp :=
+        match r with
+        | .ok (outs, pool) => .list [.list (outs.map stepOutToSexp), .list (pool.map cstToSexp)]
+        | .error e => ccodeErrToSexp e
+      let tbl := Generated.c14CCodeTable
+      let viaTable : Sexp :=
+        match c14InitT tbl.init { reverse := some (rev == "true"), pfx := some pf, list := none } with
+        | some t0 => show_ (c14RunOpsT tbl Generated.printPrec [t0] ops)
+        | none => .list [.atom "table-init-failed"]
+      some (.list [.list [.atom "model", show_ (runOps Generated.printPrec [st0] ops)],
+                   .list [.atom "table", viaTable]])
   | _ => none
 
 end PV.Driver
